@@ -4,6 +4,7 @@ REGISTRY = {
     "C07": "harness.c07_rtp",
     "C08": "harness.c08_sctp",
     "C10": "harness.c10_jitter",
+    "C12": "harness.c12_router",
     "C17": "harness.c17_serial",
     "C18": "harness.c18_rr",
 }
